@@ -304,6 +304,7 @@ def exercise(ctx, factory, rng, prefix, spec, nops=8, light=False, script=None):
         hier = kind in HIERARCHICAL
         if hier and not wired:
             _outcome(lambda: ops[name](m, kept))
+            kept.pop('nj', None)            # a view rendered before the wiring is not the view of the message
             hist.append(name + ' (not wired yet: not judged)')
             ctx.count('object_history_ops_on_unwired_objects')
             continue
